@@ -35,7 +35,18 @@ for p in props:
     else:
         out_na.append({"property_id": i, "reason": na.get(i, "check not built yet; not claimed until it is quiet on the unchanged tree and detects deliberate breakage")})
 kinds = {
-    "tsdbsim": "E1: whole tsdb.DB on tmpfs inside a synctest bubble, sequential workload vs reference model, crash images at IO hooks",
+    "tsdbsim": "E1: whole tsdb.DB on tmpfs inside a synctest bubble; generated multi-step histories (appenders, deletions, all compaction kinds, restarts) against a reference model; process-kill crash images at every tagged IO boundary (torn at page boundaries, partial RemoveAll), dirty restarts, byte damage to logs / head chunk files / blocks, injected compaction write failures; monitors on tagged reload / compaction events",
+    "tsdbsched": "E2: tsdb.DB in a bubble under the seeded scheduler: appender, reader, m-map and compaction tasks parked at tagged scheduling points inside Commit and the compaction protocol; one task runs at a time; readers judged against the set of transactions committed when they were created",
+    "walsim": "E3a: wlog.WL writer / Reader / LiveReader with seeded record sizes, rotation, torn tails, repair; history vs reference log",
+    "cdmsim": "E3b: ChunkDiskMapper and its write queue under the seeded scheduler (mirrored locks), truncation, crash images; porcupine linearizability of chunk reads",
+    "rwsim": "E4: remote.QueueManager + wlog.Watcher against a simulated receiver (net.Pipe transport, delays, 5xx / 429 / timeouts, resharding, config reloads); per-series order and delivery",
+    "scrapesim": "E6: scrape.Manager against simulated targets (net.Pipe), fake clock, exposition in all formats, target churn and reloads; stored samples and staleness markers vs model",
+    "rulesim": "E7: rules.Manager with fake clock, injected query / append failures, reloads and restarts; alert state machine and recording-rule staleness vs model",
+    "notifysim": "E5a: notifier.Manager with simulated Alertmanagers (failures, slowness, drain on shutdown) under the seeded scheduler",
+    "sdsim": "E5b: discovery.Manager with scripted discoverers under the seeded scheduler; convergence to the latest target groups",
+    "agentsim": "E8: agent-mode DB: WAL, truncation, checkpoints, restarts, crash images; every accepted sample logged and replay consistent",
+    "querysim": "E9a: promql.Engine over a fake storage seam with injected storage errors, concurrent evaluation of generated queries vs serial results",
+    "fanoutsim": "E9b: storage.Fanout over fake primary / secondary storages with failure injection at every seam call",
 }
 m = {
     "version": 1,
